@@ -292,6 +292,14 @@ struct Corpus {
           std::vector<std::string> nxt; for (auto &str : cur) for (auto &c : al) nxt.push_back(str + c); cur.swap(nxt);
         }
       }
+      // F6b: long strings (up to the 255 the length byte can hold): length word, a middle word and the last word, and two literals side by side
+      for (int L : {6, 7, 8, 9, 12, 16, 31, 32, 33, 63, 64, 65, 100, 127, 128, 129, 200, 252, 253, 254, 255}) {
+        std::string str; for (int i = 0; i < L; i++) str += (char)('a' + (i * 7) % 26);
+        int words = (L + 1 + 3) / 4;
+        for (int w : {0, words / 2, words - 1})
+          P("str:long:len" + std::to_string(L), "func at(array s, val k) is return s[k]\nproc main() is 0(at(\"" + str + "\", " + std::to_string(w) + "))\n");
+        P("str:long:two:len" + std::to_string(L), "func at(array s, array t, val k) is return s[k] - t[0]\nproc main() is 0(at(\"" + str + "\", \"" + str.substr(0, L / 2) + "\", " + std::to_string(words - 1) + "))\n");
+      }
       // F7: identifiers the code generator also invents or reserves
       for (const char *nm : {"lab0", "lab1", "lab2", "lab5", "lab10", "start", "exit", "main2", "LDAC", "BR", "DATA", "PROC", "OPR", "SVC", "x_1", "const0", "string0", "lab"}) {
         std::string n = nm;
